@@ -3,7 +3,7 @@
    Coq datatypes.  No Extract Constant. *)
 From Coq Require Import ExtrOcamlBasic.
 From Coq Require Import List ZArith QArith.
-From NR Require Import Model.TimeDep Model.Engine Model.Estimates Model.Search.
+From NR Require Import Model.TimeDep Model.Engine Model.Estimates Model.Search Model.Format.
 
 Extraction "model.ml"
   TimeDep.td_empty TimeDep.set_expression TimeDep.value_at_value
@@ -12,4 +12,5 @@ Extraction "model.ml"
   Qred Qplus Qmult Qminus Qdiv Qcompare
   Engine.new_solution Engine.exec_move Engine.unplan_unit Engine.get_unit Engine.from_scratch Engine.has_max_wait_vehicle Engine.has_capacity Engine.has_distance_limit
   Estimates.move_executable Estimates.exec_checked Engine.unit_planned
-  Search.all_orders Search.generate_all Search.all_combinations Search.sequence_generator.
+  Search.all_orders Search.generate_all Search.all_combinations Search.sequence_generator
+  Format.format_solution.
